@@ -296,7 +296,7 @@ class InterpolatableFunction(ABC):
                     "Incompatable array shapes in scheduleForInterpolation(), "
                     "should not happen!"
                 )
-                validIndices = np.all(np.isfinite(fx))
+                validIndices = np.isfinite(fx)
 
             xValid = x[validIndices]
 
